@@ -113,6 +113,24 @@ func c17Generate(t *testing.T) {
 			case 1:
 				c.Type = "stack" // a stack chart without a depth is a valid record
 			}
+			if len(recs) > 0 && rnd.Intn(3) == 0 {
+				// the same counter expression as an earlier record, for the same
+				// program, in the other role (a stack where that one is a counter, or
+				// the reverse): both are listed
+				o := recs[rnd.Intn(len(recs))]
+				for _, q := range progs {
+					if q.name == o.Program {
+						p = q
+					}
+				}
+				c.Program, c.Module, c.Counter = o.Program, o.Module, o.Counter
+				if o.Depth > 0 {
+					c.Type, c.Depth = "partition", 0
+				} else {
+					c.Type, c.Depth = "stack", 1+rnd.Intn(16)
+				}
+				res.Hit("same-expression-counter-and-stack")
+			}
 			if rnd.Intn(3) != 0 {
 				if strings.HasPrefix(p.name, "cmd/") {
 					c.Version = verifrt.Pick(rnd, []string{"go1.20", "go1.21", "go1.21.1", "go1.22", "go1.22.1", "go1.23rc1", "go1.19"})
@@ -121,7 +139,7 @@ func c17Generate(t *testing.T) {
 				}
 			}
 			recs = append(recs, c)
-			perProg[p.name]++
+			perProg[c.Program]++
 		}
 		res.Eval()
 		multi := false
@@ -190,12 +208,11 @@ func c17Generate(t *testing.T) {
 					inC++
 				}
 			}
+			var gotDepths, wantDepths []int
 			for _, sc := range p.Stacks {
 				if sc.Name == c.Counter {
 					inS++
-					if sc.Depth != c.Depth {
-						res.Violate("stack-depth", fmt.Sprintf("stack %s depth %d, record says %d", c.Counter, sc.Depth, c.Depth), rp)
-					}
+					gotDepths = append(gotDepths, sc.Depth)
 				}
 			}
 			for _, q := range cfg.Programs {
@@ -208,9 +225,24 @@ func c17Generate(t *testing.T) {
 					}
 				}
 			}
-			wantS, wantC := 0, 1
+			// every record of this program with this expression is listed, in its own role
+			wantS, wantC := 0, 0
+			for _, o := range recs {
+				if o.Program == c.Program && o.Counter == c.Counter {
+					if o.Depth > 0 {
+						wantS++
+						wantDepths = append(wantDepths, o.Depth)
+					} else {
+						wantC++
+					}
+				}
+			}
+			sort.Ints(gotDepths)
+			sort.Ints(wantDepths)
+			if inS == wantS && !reflect.DeepEqual(gotDepths, wantDepths) {
+				res.Violate("stack-depth", fmt.Sprintf("stack %s listed with depths %v, the records say %v", c.Counter, gotDepths, wantDepths), rp)
+			}
 			if c.Depth > 0 {
-				wantS, wantC = 1, 0
 				res.Hit("stack-with-depth")
 			} else if c.Type == "stack" {
 				res.Hit("stack-type-without-depth")
@@ -283,7 +315,7 @@ func c17Generate(t *testing.T) {
 			res.Sample(map[string]any{"case": i, "records": fmt.Sprintf("%+v", recs)})
 		}
 	}
-	res.Require("production-path-twice", "stack-with-depth", "stack-type-without-depth", "multi-min", "smallest-min-not-first")
+	res.Require("same-expression-counter-and-stack", "production-path-twice", "stack-with-depth", "stack-type-without-depth", "multi-min", "smallest-min-not-first")
 	if err := res.Write(); err != nil {
 		t.Fatal(err)
 	}
